@@ -8,7 +8,7 @@ From PahoV Require Import Base.Prelude.
 
 (* ---- self._in_packet (802-811); `pos` is never read by the code paths modelled here ---- *)
 Record rd : Type := mkRd {
-  command : Z;                 (* 0 = "no command byte yet" (that is how the code tests it) *)
+  command : Z;                 (* 0 = "no command byte yet" (that is how the code tests it; a 0 byte is never stored) *)
   have_remaining : bool;
   remaining_count : list Z;
   remaining_mult : Z;
@@ -52,7 +52,7 @@ Inductive rres : Type :=
 Inductive prc : Type :=
 | PrAgain                         (* MQTT_ERR_AGAIN (-1) *)
 | PrConnLost                      (* MQTT_ERR_CONN_LOST (7) *)
-| PrProtocol                      (* MQTT_ERR_PROTOCOL (2): more than 4 remaining-length bytes *)
+| PrProtocol                      (* MQTT_ERR_PROTOCOL (2): zero first byte, or more than 4 remaining-length bytes *)
 | PrFrame (cmd : Z) (body : list Z)   (* packet complete: _packet_handle() runs on it, _in_packet is reset,
                                          the return code is the handler's *)
 | PrFuel.                         (* model artefact, proved unreachable *)
@@ -80,7 +80,9 @@ Section Generic.
       | (REof, t') => Ret PrConnLost r t'
       | (RErr, t') => Ret PrConnLost r t'
       | (RData [], t') => Ret PrConnLost r t'
-      | (RData (b :: _), t') => Cont (set_command r b) t'
+      | (RData (b :: _), t') =>
+          (* packet type 0 is reserved and 0 is the "no command yet" marker: never stored (362d314) *)
+          if b =? 0 then Ret PrProtocol r t' else Cont (set_command r b) t'
       end
     else Cont r t.
 
@@ -196,18 +198,18 @@ Definition sock_read := packet_read sock_recv.
 Definition sock_run := run sock_recv sock_idle.
 
 (* fuel that always suffices (ReaderProofs.sock_run_fuel) *)
-Definition sock_fuel (s : sock) : nat := S (length (fst s) + length (snd s)).
+Definition sock_fuel (s : sock) : nat := (2 * (length (fst s) + length (snd s)) + 2)%nat.
 
 (* ------------------------------------------------------------------------------------------------ *)
 (* Reference automaton: one byte at a time, no transport. *)
 Inductive fres : Type :=
 | FNone
 | FFrame (cmd : Z) (body : list Z)
-| FErr.                           (* fifth remaining-length byte *)
+| FErr.                           (* zero first byte, or fifth remaining-length byte *)
 
 (* effect of one byte on the record; true = protocol error *)
 Definition raw1 (r : rd) (b : Z) : rd * bool :=
-  if command r =? 0 then (set_command r b, false)
+  if command r =? 0 then (if b =? 0 then (r, true) else (set_command r b, false))
   else if negb (have_remaining r) then
     let r1 := push_count r b in
     if 4 <? Z.of_nat (length (remaining_count r1)) then (r1, true)
@@ -235,18 +237,6 @@ Fixpoint feed (r : rd) (bs : list Z) : list frame * bool * rd * list Z :=
       | (r', FNone) => feed r' bs'
       | (r', FFrame c body) =>
           let '(fs, e, r'', rest) := feed r' bs' in ((c, body) :: fs, e, r'', rest)
-      end
-  end.
-
-(* every byte taken as a command byte is non-zero (the code uses command == 0 as "no command yet") *)
-Fixpoint cmd_ok (r : rd) (bs : list Z) : bool :=
-  match bs with
-  | [] => true
-  | b :: bs' =>
-      (negb (command r =? 0) || negb (b =? 0)) &&
-      match feed1 r b with
-      | (_, FErr) => true
-      | (r', _) => cmd_ok r' bs'
       end
   end.
 
